@@ -4,6 +4,7 @@ import SaModel.Lemmas.C18ReadAs
 import SaModel.Lemmas.C18EraseAs
 import SaModel.Lemmas.C18ReadNoCtx
 import SaModel.Lemmas.C18Push
+import SaModel.Lemmas.C18OwnPush
 /-
 C18 — every conversion error names the field that caused it (serializer side).
 Errors carry annotations exactly as `ContextSupport::ctx` builds them: a context annotates only an error that
@@ -234,6 +235,75 @@ example :
           (.cons (.record "O" (.cons "price" 0 (.str "seven") .nil)) .nil))) .nil))) =
       .error (.errCtx "serialize_str is not supported" [("data_type", "Int32"), ("field", "$.orders.element.price")]) := by
   decide
+
+/-! ## the blamed builder is the one whose OWN step failed (builder half, `innermost`, without completeness)
+
+Vocabulary (Lemmas/C18Own.lean): a `Call` is what a builder is asked to do (`.val x`: `x.serialize(Mut(b))`; `.default k`:
+`k` × `serialize_default`); `callBody ext b c` is the code of `b` for `c` WITHOUT its own `.ctx(self)` wrapper, the calls
+into the children being the real, wrapped ones; `OwnFails ext b c msg`: that body returns the PLAIN error `msg` — since the
+children never return plain errors (`push_not_plain`), the error is raised by the code of `b` itself, not forwarded — or
+`b` is a struct builder in a state `s` whose own `seen[idx]` check refuses a field (`Duplicate field`); `CallsOf x c`: the
+call `c` is issued while `x` is serialized (a part of `x`, a call a builder synthesises from a part — `serialize_unit` /
+tuple-struct / struct for the payload of a variant, a `u8` per byte — or a placeholder `serialize_none` /
+`serialize_default` for what `x` leaves unfilled). -/
+
+/-- the body copies are the bodies: every proper call is the wrapper around `callBody` -/
+theorem push_is_wrapped_body (ext : Ext) (b : B) (x : SVal) (hs : ∀ v, x ≠ .some v) (hn : ∀ n v, x ≠ .newtypeStruct n v) :
+    push ext b x = ctx b.ann (callBody ext b (.val x)) := push_eq_body ext b x hs hn
+
+/-- an own failure is blamed on the builder itself -/
+theorem own_failure_blames_self (ext : Ext) (b : B) (x : SVal) (msg : String) (hs : ∀ v, x ≠ .some v)
+    (hn : ∀ n v, x ≠ .newtypeStruct n v) (h : callBody ext b (.val x) = .error (.err msg)) :
+    push ext b x = .error (.errCtx msg b.ann) := by
+  rw [push_eq_body ext b x hs hn]
+  simp only [callBody] at h
+  rw [h]; simp [ctx, B.ann]
+
+/-- **push_error_deepest.** For every builder state and every serde value: an annotated error of `push ext b x` carries
+the own annotation of a builder state `b'` of the subtree of `b` (all positions of `b'` are positions of `b`) whose OWN
+step failed — `OwnFails ext b' c msg` with the very message of the error — on a call `c` issued while `x` is
+serialized.  The error is never merely the forwarded error of a child of the blamed builder: this is the `innermost`
+half of the blame property, stated operationally (no completeness of `push` w.r.t. the specification is needed). -/
+theorem push_error_deepest (ext : Ext) [ExtPlain ext] (x : SVal) (b : B) (msg : String) (ann : List (String × String))
+    (h : push ext b x = .error (.errCtx msg ann)) :
+    ∃ (b' : B) (c : Call), ann = b'.ann ∧ (∀ q ∈ positions b', q ∈ positions b) ∧ CallsOf x c ∧ OwnFails ext b' c msg :=
+  push_raised ext x b msg ann h
+
+/-- **push_error_deepest, schema form**: a builder created by `build_builder` at `path` for type `dt`, after any
+successfully pushed rows: the next error is a panic, or names the position `render path segs` of the schema, and the
+builder at that position — in the state `b'` it has at that moment — failed in its own step on a call of `x` -/
+theorem push_error_deepest_in_schema (ext : Ext) [ExtPlain ext] (dt : DataType) (path : String) (nullable : Bool) (md : Metadata)
+    (b0 : B) (h0 : newDT path dt nullable md = .ok b0) (rows : List SVal) (b : B)
+    (hb : rows.foldlM (push ext) b0 = .ok b) (x : SVal) (e : Fail) (h : push ext b x = .error e) :
+    (∃ site, e = .panic site) ∨
+    ∃ msg segs label b' c, (segs, label) ∈ segsDT dt md ∧
+      e = .errCtx msg [("data_type", label), ("field", render path segs)] ∧
+      b'.path = render path segs ∧ b'.label = label ∧ CallsOf x c ∧ OwnFails ext b' c msg := by
+  cases e with
+  | panic s => exact .inl ⟨s, rfl⟩
+  | err msg => exact absurd h (push_not_plain ext x b msg)
+  | errCtx msg ann =>
+    obtain ⟨b', c, rfl, hsub, hc, ho⟩ := push_error_deepest ext x b msg ann h
+    have hq := hsub _ (self_mem_positions b')
+    rw [foldl_push_positions ext rows b0 b hb] at hq
+    obtain ⟨segs, hs, hr⟩ := positions_below dt path nullable md b0 h0 _ hq
+    have hr' : b'.path = render path segs := hr
+    exact .inr ⟨msg, segs, b'.label, b', c, hs, by simp only [B.ann]; rw [hr'], hr', rfl, hc, ho⟩
+
+/-- non-vacuity (the example of `push_error_in_record`): the blamed builder is the `Int32` leaf below the list, in the
+state after the two prices it accepted; its own step (`serialize_str` on an `Int32` builder) fails; and that call is
+issued while the row is serialized -/
+example :
+    OwnFails {} (.leaf "$.orders.element.price" (.int .i32) none [5, 6]) (.val (.str "seven")) "serialize_str is not supported" ∧
+    CallsOf (.record "R" (.cons "orders" 0 (.seq (.cons (.record "O" (.cons "price" 0 (.int .i32 6) .nil))
+          (.cons (.record "O" (.cons "price" 0 (.str "seven") .nil)) .nil))) .nil)) (.val (.str "seven")) :=
+  ⟨.body (by decide), .inl (.record (.head (.seq (.tail (.head (.record (.head (.self _))))))))⟩
+
+/-- non-vacuity of the struct's own check: the same field twice -/
+example :
+    (do let root ← newRoot [.mk "a" .int32 false []]
+        push {} root (.record "R" (.cons "a" 0 (.int .i32 1) (.cons "a" 0 (.int .i32 2) .nil)))) =
+      .error (.errCtx "Duplicate field" [("data_type", "Struct(..)"), ("field", "$")]) := by decide
 
 /-! ## reader half
 
